@@ -666,12 +666,82 @@ type vf33Mut struct {
 	Depth  int    `json:"depth"`
 	Part   string `json:"part,omitempty"`
 	Detail string `json:"detail,omitempty"`
+
+	// for duplications: class of the copy (parts and relative position of the layers)
+	// and whether the copied signature is an N3 witness
+	dupClass string
+	dupN3    bool
+}
+
+// vf33DupNote records in mu which signature was copied where.
+func vf33DupNote(mu *vf33Mut, src, dst vf33Slot, s *refs.Signature) {
+	rel := "same-layer"
+	switch {
+	case dst.d > src.d:
+		rel = "to-inner-layer"
+	case dst.d < src.d:
+		rel = "to-outer-layer"
+	}
+	mu.Depth, mu.Part = dst.d, src.String()+"->"+dst.String()
+	mu.dupClass = vf33Parts[src.p] + "->" + vf33Parts[dst.p] + "|" + rel
+	mu.dupN3 = s.GetScheme() == refs.SignatureScheme_N3
 }
 
 var vf33MutKinds = [...]string{
 	"flip-body", "flip-meta", "flip-sig-value", "flip-sig-key", "scheme-subst", "key-subst", "drop-sig",
 	"swap-in-layer", "swap-across-layers", "foreign-sig", "drop-layer", "reorder-layers", "resign-foreign-key",
 	"version-flip", "strip-vh", "extra-body-sig", "sig-length", "replace-body",
+	"dup-sig-in-layer", "dup-sig-across-layers", "forge-from-observed",
+}
+
+// vf33Slot names one signature slot of a request: layer depth and part.
+type vf33Slot struct{ d, p int }
+
+func (s vf33Slot) String() string { return fmt.Sprintf("d%d.%s", s.d, vf33Parts[s.p]) }
+
+// vf33PickDup chooses a source slot holding a signature and a different destination slot
+// of q for a duplication: the destination is in the same layer (sameLayer) or in another
+// one.  Destinations that hold a signature are preferred (an empty one is taken 1 time of
+// 6 or when there is no other).  Both orders (source before / after the destination in
+// the chain) come out equally likely.
+func vf33PickDup(rng *rand.Rand, q *vf33Req, sameLayer bool) (src, dst vf33Slot, ok bool) {
+	vs := q.vhs()
+	var srcs []vf33Slot
+	for d, v := range vs {
+		for p := 0; p < 3; p++ {
+			if *vf33SigPtr(v, p) != nil {
+				srcs = append(srcs, vf33Slot{d, p})
+			}
+		}
+	}
+	if len(srcs) == 0 {
+		return src, dst, false
+	}
+	src = srcs[rng.IntN(len(srcs))]
+	var full, empty []vf33Slot
+	for d, v := range vs {
+		if (d == src.d) != sameLayer {
+			continue
+		}
+		for p := 0; p < 3; p++ {
+			if (vf33Slot{d, p}) == src {
+				continue
+			}
+			if s := *vf33SigPtr(v, p); s == nil {
+				empty = append(empty, vf33Slot{d, p})
+			} else if !proto.Equal(s, *vf33SigPtr(vs[src.d], src.p)) {
+				full = append(full, vf33Slot{d, p})
+			}
+		}
+	}
+	takeEmpty := rng.IntN(6) == 0
+	switch {
+	case len(full) > 0 && !(takeEmpty && len(empty) > 0):
+		return src, full[rng.IntN(len(full))], true
+	case len(empty) > 0:
+		return src, empty[rng.IntN(len(empty))], true
+	}
+	return src, dst, false
 }
 
 // pickSig selects an existing signature of q: returns depth, part or ok=false.
@@ -865,6 +935,47 @@ func vf33Mutate(rng *rand.Rand, kind string, q, sib *vf33Req, pool []vf33Key, bo
 		*pa, *pb = *pb, *pa
 		mu.Depth, mu.Part = d1, fmt.Sprintf("d%d.%s<->d%d.%s", d1, vf33Parts[p], d2, vf33Parts[p2])
 		return mu, true
+	case "dup-sig-in-layer", "dup-sig-across-layers":
+		// one signature of the request put ALSO into another slot (the source stays where
+		// it is, unlike a swap): a signature that is valid for one part presented for
+		// another part of the same or of another layer
+		src, dst, ok := vf33PickDup(rng, q, kind == "dup-sig-in-layer")
+		if !ok {
+			return mu, false
+		}
+		*vf33SigPtr(vs[dst.d], dst.p) = proto.Clone(*vf33SigPtr(vs[src.d], src.p)).(*refs.Signature)
+		vf33DupNote(&mu, src, dst, *vf33SigPtr(vs[src.d], src.p))
+		return mu, true
+	case "forge-from-observed":
+		// what an observer of a correctly signed request (the sibling) can put together
+		// without any key: own body under the observed meta headers and verification
+		// layers, the body signature slot of the origin layer filled with one of the
+		// observed signatures
+		if sib.vh == nil {
+			return mu, false
+		}
+		q.meta = proto.Clone(sib.meta).(*protosession.RequestMetaHeader)
+		q.vh = proto.Clone(sib.vh).(*protosession.RequestVerificationHeader)
+		vs = q.vhs()
+		var srcs []vf33Slot
+		for d, v := range vs {
+			for p := 0; p < 3; p++ {
+				if *vf33SigPtr(v, p) != nil {
+					srcs = append(srcs, vf33Slot{d, p})
+				}
+			}
+		}
+		if len(srcs) == 0 {
+			return mu, false
+		}
+		src := srcs[rng.IntN(len(srcs))]
+		dst := vf33Slot{len(vs) - 1, 0}
+		if !vf33Legacy(q.meta) {
+			dst.d = 0 // one layer by protocol: its body signature is the outer one
+		}
+		*vf33SigPtr(vs[dst.d], dst.p) = proto.Clone(*vf33SigPtr(vs[src.d], src.p)).(*refs.Signature)
+		vf33DupNote(&mu, src, dst, *vf33SigPtr(vs[src.d], src.p))
+		return mu, true
 	case "drop-layer":
 		switch v := rng.IntN(5); v {
 		case 0: // outer verification layer only
@@ -998,7 +1109,7 @@ func vf33Hex(m neofscrypto.ProtoMessage) string { return hex.EncodeToString(vf33
 func TestVerif_C33(t *testing.T) {
 	r := verifkit.Start(t, "C33", "exploration")
 	defer r.Finish()
-	r.SetRule("base = request (6 body kinds) signed by the SDK signer with 1-3 layers, scheme per layer from {ECDSA_SHA512, RFC6979, WalletConnect, N3}, legacy(<2.25)/modern API per layer, outer TTL in {0,1,2,rnd}; per base: untouched + one attempt of each of 18 mutation kinds (bit flips in wire bytes of body/any meta layer, in signature values/keys, scheme/key substitution, dropped/swapped/foreign signatures, dropped/reordered layers, re-signing by a foreign key, version flip, stripped header, ...) x 1 of 8 peer contexts x FS chain mode, each shown to VerifyRequestSignatures, ...WithContext and ...N3; distinct = (body kind, layer count, schemes, legacy pattern, ttl class, mutation kind/depth/part/detail class, context, chain mode); non-trivial = all of them")
+	r.SetRule("base = request (6 body kinds) signed by the SDK signer with 1-3 layers, scheme per layer from {ECDSA_SHA512, RFC6979, WalletConnect, N3}, legacy(<2.25)/modern API per layer, outer TTL in {0,1,2,rnd}; per base: untouched + one attempt of each of 21 mutation kinds (bit flips in wire bytes of body/any meta layer, in signature values/keys, scheme/key substitution, dropped/swapped/foreign signatures, a signature duplicated into another slot of the same/another layer, a request forged from the parts of an observed one, dropped/reordered layers, re-signing by a foreign key, version flip, stripped header, ...) x 1 of 8 peer contexts x FS chain mode, each shown to VerifyRequestSignatures, ...WithContext and ...N3; distinct = (body kind, layer count, schemes, legacy pattern, ttl class, mutation kind/depth/part/detail class, context, chain mode); non-trivial = all of them")
 	r.Assume("stable marshaling (MarshalStable) of request parts is the byte form that signatures cover")
 	r.Assume("ECDSA verification of the Go standard library is the ground truth for the three ECDSA schemes; N3 witnesses are judged by a model of a single-signature CheckSig witness")
 	r.Assume("API >= 2.25 requests consist of one verification layer (origin fields are ignored data per protocol); for them the reference constrains the outer layer only")
@@ -1117,6 +1228,14 @@ func TestVerif_C33(t *testing.T) {
 					r.Seen("forwarded_chain_ttl1_trusted_invalid_rejected_reasons", why)
 				case !mustReject && v.accepted:
 					r.Count("forwarded_chain_ttl1_trusted_valid_accepted_"+en, 1)
+				}
+			}
+			if mu.dupClass != "" && !exempt && mustReject && !v.accepted {
+				// a signature presented for a second part was refused: which copies were seen
+				r.Seen("dup_sig_rejected_classes_"+en, mu.dupClass)
+				if mu.dupN3 && n3ok {
+					r.Count("dup_sig_n3_witness_rejected_with_healthy_chain", 1)
+					r.Seen("dup_sig_n3_witness_rejected_classes", mu.dupClass)
 				}
 			}
 			switch {
